@@ -90,8 +90,11 @@ def generate_ops(rng, cfg, spec, tier) -> list[dict]:
         elif r < 0.90 and cfg["boot_params"]:
             ops.append({"op": "boot_fit", "reuse": any(o["op"] == "boot_fit" for o in ops) and rng.random() < 0.5})
             has_boot = True
-        elif r < 0.95:
+        elif r < 0.93:
             ops.append({"op": "ambient"})
+        elif r < 0.96:
+            # another object of the same class is fitted on other data: objects must not share state
+            ops.append({"op": "other_fit", "fit": rng.choice([f for f in cfg["fits"] if f != cur] or [cur])})
         elif lazy:
             ops.append({"op": "compute_fault", "target": "m", "at": rng.randint(1, 40),
                         "exc": rng.choice(["InjectedFault", "MemoryError", "OSError"])})
@@ -412,6 +415,17 @@ def execute(cfg: dict, *, stop_at_first=True, trace=False) -> RunResult:
             elif kind == "ambient":
                 core.ambient_event(seed, str(op["id"]), clock)
                 counts["ambient"] += 1
+            elif kind == "other_fit":
+                other = spec.cls()(**copy.deepcopy(cfg["params"]))
+                oenv = models.Env(cfg["descs"])
+                oo = oracle.capture(models.fit_model, spec, other, cfg["fits"][op["fit"]], oenv)
+                if oo.ok:
+                    oracle.capture(lambda: oracle.materialise(models.run_query(spec, other, {"q": "call", "name": "scores", "kw": {}}, oenv)))
+                counts["other_fits"] = counts.get("other_fits", 0) + 1
+                res.log.append(f"  other object fit({op['fit']}) -> {oo.kind()}")
+                del other
+                if not res.violations:
+                    probe(op, k=3)
             elif kind == "compute_fault":
                 if st["m_fit"] is None or st["m_computed"]:
                     counts["undefined_skips"] += 1
@@ -472,6 +486,8 @@ def _opk(op):
         return f"q{op['target']}:{_qname(op['q'])}" + ("!" if op.get("bad") else "")
     if k in ("compute", "serialize"):
         return f"{k}:{op['target']}"
+    if k == "other_fit":
+        return f"other_fit:{op['fit']}"
     return k
 
 
